@@ -129,6 +129,14 @@ def cases(tier, seed, prep=None):
         out.append({"seed": seed * 1000003 + 595000 + i, "offer": kind, "name_i": 0, "out_i": rng.choice([0, 0, OUTS.index("out.new")]),
                     "accept": True, "answer": "y", "pre": "absent", "process_cwd": True,
                     "members": pick_members(rng) if kind == "directory" else []})
+    # the receiver's options go through the real command-line parser (click), including the ways a script gets them wrong:
+    # -o with an empty value (an unset shell variable) is "no --output-file"
+    for i in range(40 if tier == "quick" else 1200):
+        kind = "file" if i % 2 == 0 else "directory"
+        out.append({"seed": seed * 1000003 + 597000 + i, "offer": kind, "name_i": [0, NAMES.index("pre.file"), NAMES.index("pre.dir")][i % 3],
+                    "out_i": 0, "cmdline_out": ["", "", None, "out.new", "pre.dir"][(i // 3) % 5],
+                    "accept": True, "answer": "y", "pre": ["file", "dir", "absent"][(i // 2) % 3], "cmdline": True,
+                    "members": pick_members(rng) if kind == "directory" else []})
     # several receives in one process with one shared configuration object
     for i in range(30 if tier == "quick" else 800):
         out.append({"seed": seed * 1000003 + 590000 + i, "series": True, "n": 2 + i % 2, "out": [None, "inbox", "inbox"][i % 3]})
@@ -323,6 +331,8 @@ def _run(spec, world, base):
             f.write(data)
     name = NAMES[spec["name_i"]]
     out = OUTS[spec["out_i"]]
+    if spec.get("cmdline"):
+        out = spec["cmdline_out"] or None       # (an empty value is no value)
     if out == "/ABS/out-abs":
         out = os.path.join(base, "case", "abs-out-target")
     # optionally pre-create the destination the offer's basename points at
@@ -388,6 +398,22 @@ def _run(spec, world, base):
                 os.environ["PWD"] = old_pwd
         if os.path.realpath(ra.cwd) != os.path.realpath(cwd):
             pass        # (judged below by where the files end up)
+    elif spec.get("cmdline"):
+        from wormhole.cli import cli as cli_mod
+        argv = ["receive"] + (["--accept-file"] if spec["accept"] else [])
+        if spec["cmdline_out"] is not None:
+            argv += ["-o", spec["cmdline_out"]]
+        argv.append(code)
+        captured = []
+        orig_go = cli_mod.go
+        cli_mod.go = lambda f_, cfg_: captured.append(cfg_)
+        try:
+            cli_mod.wormhole.main(args=argv, standalone_mode=False)
+        finally:
+            cli_mod.go = orig_go
+        parsed = captured[0]
+        ra = mkargs(code=parsed.code, output_file=parsed.output_file, accept_file=parsed.accept_file)
+        ra.cwd = cwd
     else:
         ra = mkargs(code=code, output_file=out, accept_file=spec["accept"])
         ra.cwd = cwd
@@ -484,7 +510,7 @@ def _run(spec, world, base):
     evil = sum(1 for m in listed if m.startswith("..") or m.startswith("/") or "/../" in m or m in ("", ".", "..", "./", "../") or "evil" in m or m in ("link-to-outside", "setuid", "zeroperm", "dirperm-file"))
     return {"violations": viol, "nontrivial": nontrivial,
             "counters": {"writes_observed": len(log), "transfers_completed": int(completed), "refusals": int(refused),
-                         "evil_members": evil, "offer_" + spec["offer"]: 1, "pre_symlink_cases": int(str(pre).startswith("symlink")), "tmp_sibling_cases": tmp_sibling, "stale_PWD_cases": int(bool(spec.get("process_cwd"))), "sender_hung_up": int(any(e[0] == "hung up after" for e in elog)), "rejected_by_receiver": int(ro != "success"),
+                         "evil_members": evil, "offer_" + spec["offer"]: 1, "pre_symlink_cases": int(str(pre).startswith("symlink")), "tmp_sibling_cases": tmp_sibling, "stale_PWD_cases": int(bool(spec.get("process_cwd"))), "options_through_the_real_command_line_parser": int(bool(spec.get("cmdline"))), "sender_hung_up": int(any(e[0] == "hung up after" for e in elog)), "rejected_by_receiver": int(ro != "success"),
                          "paths_changed": len(changed)},
             "sets": {"receiver_errors": [type(rr.failure.value).__name__ + ":" + str(rr.failure.value)[:50]] if rr.failure else []},
             "sample": {"spec": spec, "offer_name": repr(name), "members": listed, "output_file": out, "pre": pre, "receiver": ro,
